@@ -178,7 +178,26 @@ pub fn child(args: &[String]) -> i32 {
                     "compute" => { peer_db.compute_daily_log().await; Ok(()) }
                     other => Err(format!("unknown request {other}")),
                 };
-                ack(json!({"req": name, "n": rq["n"], "res": if r.is_ok() { "ok" } else { "err" }, "msg": r.err().unwrap_or_default().chars().take(60).collect::<String>()}));
+                // acknowledged => visible to every later query, on whichever reader connection it runs
+                let mut visible = json!("n/a");
+                if r.is_ok() && !concurrent {
+                    let mut seen_all = true;
+                    for _ in 0..3 {
+                        let a = peer_db.query("query { v.A { name } }", None).await.unwrap_or_default();
+                        let b = peer_db.query("query { v.B { name } }", None).await.unwrap_or_default();
+                        let has = |t: &str| a.contains(&format!("\"{}\"", t)) || b.contains(&format!("\"{}\"", t));
+                        let ok = match name.as_str() {
+                            "create2" | "ingest2" => has(&s(&rq, "t1")) && has(&s(&rq, "t2")),
+                            "update" => has(&s(&rq, "text")),
+                            "delete" | "ingestdel" => !has(&s(&rq, "row")),
+                            _ => true,
+                        };
+                        seen_all = seen_all && ok;
+                    }
+                    visible = json!(if seen_all { "yes" } else { "no" });
+                }
+                ack(json!({"req": name, "n": rq["n"], "res": if r.is_ok() { "ok" } else { "err" }, "visible": visible,
+                    "msg": r.err().unwrap_or_default().chars().take(60).collect::<String>()}));
             }
         };
         if concurrent {
